@@ -756,6 +756,25 @@ func (m *rM) solve(goal Term, s *rSub, cutB int, k rK) rOut {
 		return m.retract(arg(0), s, k)
 	case f == rAtomClause && n == 2:
 		return m.clause(arg(0), arg(1), s, k)
+	case n == 2 && (f == rAtomTermLt || f == rAtomTermGt || f == rAtomTermLe || f == rAtomTermGe):
+		c := rCompare(arg(0), arg(1), s)
+		if (f == rAtomTermLt && c < 0) || (f == rAtomTermGt && c > 0) || (f == rAtomTermLe && c <= 0) || (f == rAtomTermGe && c >= 0) {
+			return k(s)
+		}
+		return rOut{kind: rFail}
+	case f == rAtomCompareOp && n == 3:
+		c := rCompare(arg(1), arg(2), s)
+		o := rAtomEq
+		if c < 0 {
+			o = rAtomLt
+		} else if c > 0 {
+			o = rAtomGt
+		}
+		s2, ok := rUnify(arg(0), o, s)
+		if !ok {
+			return rOut{kind: rFail}
+		}
+		return k(s2)
 	case f == rAtomRetractall && n == 1:
 		return m.retractall(arg(0), s, k)
 	case f == rAtomAbolish && n == 1:
